@@ -295,7 +295,7 @@ def run(tier, seed):
         shutil.rmtree(work, ignore_errors=True)
     need = {"AddHole", "AddDepthData", "AddIntervalData", "SetValues", "Rename", "RemoveDataViaParent", "RemoveDataViaWorkspace",
             "RemoveHoleViaParent", "RemoveHoleViaWorkspace", "RemovePropertyGroup", "AddValuesToTable", "Reopen", "CopyGroup",
-            "Protect", "SaveHoleAgain", "SetPublic", "RemovePlainChild", "CopyEdit", "CopyPurge", "AddObjectData", "AddBadData", "ReopenRemoveHole", "ReopenRemoveGroup"}
+            "Protect", "SaveHoleAgain", "SetPublic", "RemovePlainChild", "CopyEdit", "CopyPurge", "AddObjectData", "AddBadData", "ReopenRemoveHole", "ReopenRemoveGroup", "RemoveGroup"}
     if need - set(acts_seen):
         raise MachineryError(f"actions never replayed: {sorted(need - set(acts_seen))}")
     if replayed_steps < 1000:
